@@ -12,10 +12,13 @@
 (*                                                                         *)
 (* The transport is the environment: it may accept fewer bytes than         *)
 (* offered (short write), accept zero (= it can take no more: a fault), or  *)
-(* fail.  The server must behave     *)
-(* like write_all: the complete response is offered by the first call, and  *)
-(* every later call offers exactly what is still unaccepted, until nothing  *)
-(* remains or the transport reports an error.                               *)
+(* fail.  The server may hand the response over in one piece or in several  *)
+(* (head then body, buffered chunks, a flush in between); what it must do   *)
+(* is behave like write_all on every piece: a call that follows a short     *)
+(* write offers first exactly the bytes that were left unaccepted           *)
+(* (`continues`, observed by the transport), nothing is flushed or reported *)
+(* as delivered while bytes are pending.  That the accepted bytes are one   *)
+(* complete response is HttpMsg's part (Content-Length = body).             *)
 (*                                                                         *)
 (* ImplSingleWrite = TRUE is the implementation-shaped variant of the       *)
 (* pinned tree (one write call, the result's byte count ignored).           *)
@@ -25,54 +28,55 @@ EXTENDS Naturals, Sequences
 CONSTANT ImplSingleWrite
 
 VARIABLES phase,        \* "new", "read_ok", "read_err", "writing", "flushed", "returned"
-          total,        \* length of the complete response (known from the first write call; 0 = nothing offered yet)
-          remaining,    \* bytes of it not yet accepted by the transport
+          sent,         \* bytes accepted by the transport so far
+          pending,      \* bytes offered by the last write call and not accepted
           fault,        \* a transport fault happened (read / write / flush error)
           result        \* "none" | "ok" | "err"
 
-cvars == <<phase, total, remaining, fault, result>>
+cvars == <<phase, sent, pending, fault, result>>
 
-CInit == phase = "new" /\ total = 0 /\ remaining = 0 /\ fault = FALSE /\ result = "none"
+CInit == phase = "new" /\ sent = 0 /\ pending = 0 /\ fault = FALSE /\ result = "none"
 
-ReadOk  == phase = "new" /\ phase' = "read_ok" /\ UNCHANGED <<total, remaining, fault, result>>
-ReadErr == phase = "new" /\ phase' = "read_err" /\ fault' = TRUE /\ UNCHANGED <<total, remaining, result>>
+ReadOk  == phase = "new" /\ phase' = "read_ok" /\ UNCHANGED <<sent, pending, fault, result>>
+ReadErr == phase = "new" /\ phase' = "read_err" /\ fault' = TRUE /\ UNCHANGED <<sent, pending, result>>
+
+Writable == phase \in {"read_ok", "read_err", "writing", "flushed"}
+\* what a call must offer after a short write: the unaccepted rest first (more may follow it)
+Resumes(offered, continues) == pending > 0 => (offered >= pending /\ continues)
 
 \* a write call offering `offered` bytes of which the transport accepts `accepted`
-Write(offered, accepted) ==
-    /\ phase \in {"read_ok", "read_err", "writing"}
-    /\ accepted <= offered
-    /\ IF total = 0
-       THEN /\ offered > 0 /\ total' = offered /\ remaining' = offered - accepted
-       ELSE /\ remaining > 0 /\ offered = remaining          \* a retry offers exactly the unaccepted rest
-            /\ total' = total /\ remaining' = remaining - accepted
+Write(offered, accepted, continues) ==
+    /\ Writable
+    /\ offered > 0 /\ accepted <= offered
+    /\ Resumes(offered, continues)
+    /\ sent' = sent + accepted /\ pending' = offered - accepted
     /\ phase' = "writing"
     /\ fault' = (fault \/ accepted = 0)      \* Ok(0) for a non-empty buffer: the transport cannot take more (WriteZero)
     /\ UNCHANGED result
 
-WriteErr(offered) ==
-    /\ phase \in {"read_ok", "read_err", "writing"}
-    /\ (total = 0 \/ offered = remaining)
+WriteErr(offered, continues) ==
+    /\ Writable
+    /\ Resumes(offered, continues)
     /\ fault' = TRUE /\ phase' = "writing"
-    /\ total' = IF total = 0 THEN offered ELSE total
-    /\ remaining' = IF total = 0 THEN offered ELSE remaining
-    /\ UNCHANGED result
+    /\ pending' = offered /\ UNCHANGED <<sent, result>>
 
-\* flush only after everything was accepted (flushing a half-sent response and stopping is the single-write bug)
-FlushOk  == /\ phase = "writing" /\ (ImplSingleWrite \/ remaining = 0) /\ phase' = "flushed"
-            /\ UNCHANGED <<total, remaining, fault, result>>
-FlushErr == /\ phase = "writing" /\ (ImplSingleWrite \/ remaining = 0) /\ phase' = "flushed" /\ fault' = TRUE
-            /\ UNCHANGED <<total, remaining, result>>
+\* flush only when nothing is pending (flushing a half-sent response and stopping is the single-write bug)
+\* (a second flush in a row is harmless and allowed)
+FlushOk  == /\ phase \in {"writing", "flushed"} /\ (ImplSingleWrite \/ pending = 0) /\ phase' = "flushed"
+            /\ UNCHANGED <<sent, pending, fault, result>>
+FlushErr == /\ phase \in {"writing", "flushed"} /\ (ImplSingleWrite \/ pending = 0) /\ phase' = "flushed" /\ fault' = TRUE
+            /\ UNCHANGED <<sent, pending, result>>
 
-\* Ok only when a complete response went out; Err is legitimate after a transport fault, or after an error
-\* response has been delivered in full (Server::process reports parse errors to its caller after answering)
+\* Ok only when everything offered went out and was flushed; Err is legitimate after a transport fault, or after an
+\* error response has been delivered in full (Server::process reports parse errors to its caller after answering)
 Return(r, errorStatus) ==
     /\ phase \in {"flushed", "writing"}
     /\ r \in {"ok", "err"}
-    /\ (r = "ok" => phase = "flushed" /\ ~fault /\ total > 0 /\ (ImplSingleWrite \/ remaining = 0))
-    /\ (r = "err" => fault \/ (phase = "flushed" /\ total > 0 /\ (ImplSingleWrite \/ remaining = 0) /\ errorStatus))
+    /\ (r = "ok" => phase = "flushed" /\ ~fault /\ sent > 0 /\ (ImplSingleWrite \/ pending = 0))
+    /\ (r = "err" => fault \/ (phase = "flushed" /\ sent > 0 /\ (ImplSingleWrite \/ pending = 0) /\ errorStatus))
     /\ phase' = "returned" /\ result' = r
-    /\ UNCHANGED <<total, remaining, fault>>
+    /\ UNCHANGED <<sent, pending, fault>>
 
 \* C04/C05 on the design: a connection whose transport never failed ends with the whole response delivered
-DeliveredInFull == (phase = "returned" /\ ~fault) => (total > 0 /\ remaining = 0)
+DeliveredInFull == (phase = "returned" /\ ~fault) => (sent > 0 /\ pending = 0)
 =============================================================================
